@@ -5,16 +5,18 @@ import lifecycle as arch
 
 COQ_PROPS = 'props/C08.v'
 PARTIAL = ('PROVED (all archives / every state any history reaches, no bound): every rejection row of the lifecycle table '
-           '(RuntimeError, whole state unchanged); add accepted iff the tag/type/declaration rule, clean rejection in every row '
-           'but the undeclared-complex one; write-again = same document; copy = open archive with the same tags; add/write/extract '
-           'preserve the session (every registered leaf keeps its attributes, every leaf a live number uses stays); loads never '
-           'touch the context id/counters and a number declared after loading a document of another context id has a uid the '
-           'document does not contain. PARTIAL: same-session freshness assumes the invariant "same-context uids <= counter" '
-           '(C08_fresh_uid_partial). REFUTED with witnesses (replayed as known findings): partial add, undeclared-complex residue '
-           'and the write that then fails with AttributeError, load/copy overwriting a live leaf\'s correlation, JSON load '
-           'turning a live leaf\'s complex tuple into a list. '
+           '(RuntimeError, whole state unchanged); add accepted iff the tag/type/declaration rule; EVERY rejected _setitem and '
+           'every failing add(**kw) leaves the archive exactly as it was (C08_add_reject_unchanged, C08_add_atomic: after the '
+           'fix: commits); write-again = same document; copy = open archive with the same tags; add/write/extract preserve the '
+           'session; loading / Archive.copy / _thaw never unregister a leaf a live number uses, never change its label, u, df, '
+           'independent nor any correlation it knows (C08_read_pure, after the merge fix); a JSON document is read exactly as '
+           'the pickled record (C08_read_json_as_pickle); loads never touch the context id/counters and a number declared after '
+           'loading a document of another context id has a uid the document does not contain. PARTIAL: same-session freshness '
+           'assumes the invariant "same-context uids <= counter" (C08_fresh_uid_partial); C08_read_pure does not speak of the '
+           '`complex` pairing (assigned by _thaw; equal in value whenever uids are unique) nor of ensembles (not modelled). '
+           'STILL KNOWN (no small safe repair): constants accepted by add, result(x,label) relabelling a live leaf, XML label "". '
            'ONLY VALIDATED (correspondence + oracle): acceptance of write/read on well-formed reachable archives, order '
-           'independence of loads and equality of restored covariances (numeric content is C07), ensembles (not modelled).')
+           'independence of loads and equality of restored covariances (numeric content is C07).')
 ASSUMPTIONS = ['uuid4 context ids of different sessions differ (hypothesis of the freshness theorem)',
                'the registries are WeakValueDictionaries: the model assumes CPython reference counting frees the nodes a '
                'failed _thaw created (the harness holds every live number and archive, and calls gc.collect() each step)',
@@ -29,16 +31,14 @@ def correspondence(rng, tier):
 # ---------------------------------------------------------------- oracle (search only)
 # An independent restatement of the property, evaluated on the implementation alone.
 KNOWN_KINDS = {
-    'add-partial': 'a failing add(**kw) keeps the entries added before the failing one',
-    'add-undeclared-complex-residue': 'a rejected undeclared complex leaves tag_re/tag_im in _untagged_real',
-    'write-after-failed-add': 'an open non-empty archive cannot be written after a rejected undeclared complex',
-    'load-overwrites-correlation': 'reading (or copying a written archive) assigns the archived correlation onto a live leaf',
     'constant-accepted': 'constants / numbers with a constant component are accepted by add although not declared',
     'extract-no-names': 'extract() without names raises IndexError',
     'result-label-blocks-reload': 'result(x, label) relabels a live elementary leaf; an earlier archive of x cannot be read',
     'xml-empty-label': 'XML stores label "" as no label; the same-session reload raises RuntimeError (uid in use)',
-    'json-load-relists-complex': 'loads_json assigns `complex` as a list onto live leaves; live numbers then report another dof',
 }
+# repaired in /repo (fix: commits); the oracle reports them as failures again if they come back:
+FIXED_KINDS = ('add-partial', 'add-undeclared-complex-residue', 'write-after-failed-add', 'load-overwrites-correlation',
+               'json-load-relists-complex')
 
 def reports(s):
     """what every live number reports (exact floats), and all pairwise correlations of elementary reals"""
@@ -184,7 +184,10 @@ def classify_read_refusals(fails, ops):
             empty = any(o[0] in ('real', 'complex', 'result') and (o[1] if o[0] != 'result' else o[2]) == '' for o in hist)
             const = any(o[0] in ('const', 'constc') for o in hist)
             part = any(o[0] == 'part' for o in hist)
-            if f.get('fmt') == 'xml' and empty: f['kind'] = 'xml-empty-label'
+            xml_doc = any(o[0] == 'write' and o[2] == 'xml' for o in hist)
+            # a label '' archived through XML comes back as None: the XML document itself cannot be re-read in the
+            # session, and any other document of the same number cannot be read next to the XML one
+            if empty and (f.get('fmt') == 'xml' or xml_doc): f['kind'] = 'xml-empty-label'
             elif relabel: f['kind'] = 'result-label-blocks-reload'
             elif const or part: f['kind'] = 'constant-accepted'
         out.append(f)
